@@ -37,9 +37,9 @@ Definition ev_ok (K : conf) (e : event) : Prop :=
 
 Definition log_ok (K : conf) (l : list event) : Prop := Forall (ev_ok K) l.
 
-(** events that carry no flag information *)
+(** events that carry no flag information and are logged by library code or by [ok] *)
 Definition benign (e : event) : Prop :=
-  match e with ECb _ _ _ | ESObs _ _ _ _ => False | _ => True end.
+  match e with ECb _ _ _ | ESObs _ _ _ _ | ERes RPanicked => False | _ => True end.
 
 Lemma benign_ok K e : benign e -> ev_ok K e.
 Proof. destruct e; cbn; tauto. Qed.
@@ -252,10 +252,6 @@ Section Helpers.
   Proof. unfold map_insert. intros; brk; cbn [fst]; fl. Qed.
   Hint Resolve inv_adjust_trigger_point inv_map_insert : fl.
 
-  Lemma inv_ok t m r : inv A t m -> inv A t (ok m r).1.
-  Proof. unfold ok. intros; cbn [fst]; fl. Qed.
-  Hint Resolve inv_ok : fl.
-
   (** *** folds *)
   Lemma inv_fold {B} (f : machine -> B -> machine) t :
     (forall m a, inv A t m -> inv A t (f m a)) ->
@@ -388,8 +384,8 @@ Section Helpers.
   End Tracing.
 End Helpers.
 
-Lemma ev_ok_trace K p m o :
-  inv (flagsA K) (true, false, false, p) m -> ev_ok K (ECb KTrace o (cur_flags K m)).
+Lemma ev_ok_trace K A p m o :
+  inv A (true, false, false, p) m -> ev_ok K (ECb KTrace o (cur_flags K m)).
 Proof.
   intros H. unfold cur_flags.
   rewrite (inv_c _ _ _ _ _ _ H), (inv_f _ _ _ _ _ _ H), (inv_d _ _ _ _ _ _ H).
@@ -401,4 +397,4 @@ Qed.
   inv_weak_strong_count inv_weak_weak_count inv_weak_drop inv_weak_drop_opt
   inv_node_via_slot inv_resolve inv_wresolve inv_nresolve inv_write_loc inv_write_wloc
   inv_new_node inv_new_map inv_box_alloc inv_set_fuse inv_tick inv_adjust
-  inv_adjust_trigger_point inv_map_insert inv_ok inv_unmark_all inv_reset_buffered : fl.
+  inv_adjust_trigger_point inv_map_insert inv_unmark_all inv_reset_buffered : fl.
